@@ -7,10 +7,17 @@ Pair = TupleT(StableNode, STR)
 
 TagVal = TupleT(STR, STR)  # (type, value)
 # gfa.Node as seen by the coordinate code: id + tags
-GNode = ObjT("Node", id=STR, tags=DictT(STR, TagVal))
+GNode = ObjT("NodeTagsView", id=STR, tags=DictT(STR, TagVal))
 
 Alignment = ObjT("Alignment", query_name=STR, query_length=INT, query_start=INT, query_end=INT, strand=STR, path=ListT(STR),
                  path_length=INT, path_start=INT, path_end=INT, residue_matches=INT, alignment_block_length=INT,
                  mapping_quality=INT, is_primary=BOOL, cigar=STR, tags=OrdDictT(STR, STR))
 LINE = ListT(STR)
 IMAP = MapT(INT, INT)
+
+# full gfa.Node / gfa.GFA (adjacency view)
+Edge = TupleT(STR, INT, INT)  # (neighbor id, side of the neighbor: 0 start / 1 end, overlap)
+Node = ObjT("Node", id=STR, seq=STR, seq_len=INT, start=SetT(Edge), end=SetT(Edge), visited=BOOL, tags=DictT(STR, TagVal))
+EdgeKey = TupleT(STR, INT, STR, INT)
+GFAT = ObjT("GFA", nodes=DictT(STR, Node), edge_tags=DictT(EdgeKey, ListT(STR)))
+GFAT.dunder = {"__getitem__": "nodes", "__contains__": "nodes"}
